@@ -1,6 +1,6 @@
 ----------------------------------- MODULE Cli -----------------------------------
 (* The direct fan commands of the command line (cmd/fan: `fan2go fan --id F speed [v]`,   *)
-(* `mode [m]`, `rpm`) as actions on the registers of the device - growth beyond the listed   *)
+(* `mode [m]`, `rpm`; cmd/sensor: `fan2go sensor --id S`) as actions on the registers of the device - growth beyond the listed   *)
 (* properties (DESIGN 10).  A fan is a record of registers:                                  *)
 (*   kind "hwmon": pwm, mode (pwm_enable), rpm files       kind "file": pwm (+ rpm) file     *)
 (* Each action is one process: it reads the configuration, binds the fan, acts, prints.      *)
@@ -23,6 +23,10 @@ ModeSet(r, a) ==
   ELSE IF r.kind = "hwmon" THEN [regs |-> [r EXCEPT !.mode = ModeOfArg(a)], exit |-> 0, value |-> ModeOfArg(a)]
   ELSE [regs |-> r, exit |-> 0, value |-> 1]
 RpmGet(r) == [regs |-> r, exit |-> 0, value |-> IF r.hasRpm THEN r.rpm ELSE -1]
+
+\* `fan2go sensor --id S`: one reading of the sensor's backend (file / hwmon input / command output), printed as an integer;
+\* a sensor that cannot be read is an error, never a made-up number.  s: [kind, value, present]
+SensorGet(s) == IF s.present THEN [regs |-> s, exit |-> 0, value |-> s.value] ELSE [regs |-> s, exit |-> 1, value |-> -1]
 
 \* ---- properties of the command set (checked on the definitions by MC_Cli) ----
 \* reading commands never change the device; a write changes only its own register
